@@ -368,7 +368,8 @@ def replay(case):
     if hist.startswith('after:'):
         # the recorded predecessor is abbreviated; replay against every focus predecessor is not needed: re-run the item
         r = work(('history', 0, 1, 'quick'))
-        return [v for v in r['violations'] if v['case']['query'] == case['query']][:1]
+        return [v for v in r['violations'] if v['case']['query'] == case['query'] and v['case']['clause'] == case['clause']
+                and v['case']['history'] == case['history'] and v['case']['ajax'] == case['ajax']][:1]
     if hist == 'race':
         r = work(('race', 0, 1, 'quick'))
         return r['violations'][:1]
